@@ -76,6 +76,7 @@ Definition cmd_of_hstmt (h : hstmt) : cmd :=
   | HTermDest c => guarded c (CDest DTerm (EG allocv))
   | HWarnRet => CIf (EG warning) (CSet retval (EC (-1))) CSkip
   | HRestoreMarkerMethods c => guarded c (CNull (D "marker->dummy_methods"))
+  | HRestoreStartInputPass c => guarded c (CNull (D "inputctl->dummy_start_input_pass"))
   | HFree _ _ | HDestroyTmp _ | HFclose _ | HOther _ _ => CSkip
   end.
 Definition cmd_of_hstmts (l : list hstmt) : cmd := seq (map cmd_of_hstmt l).
@@ -253,7 +254,8 @@ Definition master_selection (fx : fixes) (raw merged : bool) : cmd :=
   (if raw
    then (* lossless mode disables raw (downsampled) output: the whole pipeline is built *)
      CIf (EG (D "master->lossless"))
-         (CSet (D "raw_data_out") (EC 0) ;; CAlloc (D "cconvert") ;; CAlloc (D "upsample") ;; CAlloc (D "post") ;; CAlloc (D "main"))
+         (CSet (D "raw_data_out") (EC 0) ;; CAlloc (D "cconvert") ;; stage S_STARTCC ;; CAlloc (D "upsample") ;; CAlloc (D "post") ;;
+          CAlloc (D "main"))
          CSkip
    else
      (if merged then CAlloc (D "upsample")
@@ -264,6 +266,7 @@ Definition master_selection (fx : fixes) (raw merged : bool) : cmd :=
   CAlloc (D "coef") ;;
   (if raw then CSkip else CAlloc (D "main")) ;;
   account OD ;;
+  CIfNull (D "inputctl->dummy_start_input_pass") CSkip (CObs "dummy_start_input_pass" (EC 1)) ;;
   (* start_input_pass: per_scan_setup, latch_quant_tables, entropy start_pass *)
   CDeref (D "comp_info") ;; CDeref (D "entropy") ;; CDeref (D "coef") ;;
   stage S_START.
@@ -364,7 +367,9 @@ Definition prog_decompress_yuv (fx : fixes) (selfc : bool) : prog :=
 
 (* --- tj3DecodeYUVPlanes8 ------------------------------------------------------- *)
 Definition prog_decode_yuv (fx : fixes) (merged : bool) : prog :=
-  mk "tj3DecodeYUVPlanes8"
+  (* the F13 fix puts the original start_input_pass back in the bailout block as well (idempotent once the
+     regenerated bailout contains that statement itself) *)
+  let p := mk "tj3DecodeYUVPlanes8"
      (prologue ;; throw S_ARGS ;; CSetjmp 0 ;; CSet warning (EA "warn") ;; throw S_XTHROW ;;
       seq (map (fun f =>
                   if String.eqb f "comp_info" then CAlloc (D "comp_info")
@@ -401,6 +406,7 @@ Definition prog_decode_yuv (fx : fixes) (merged : bool) : prog :=
       (* initial_setup and master_selection branch on master->lossless, which only get_sof assigns *)
       CObs "master->lossless" (EG (D "master->lossless")) ;;
       CIf (ENe (EG gsd) (EC dstate_ready)) CRaise CSkip ;;
+      (if fx13 fx then CAlloc (D "inputctl->dummy_start_input_pass") else CSkip) ;;
       stage S_START0 ;;
       CSet (D "master->using_merged_upsample") (EC (b2z merged)) ;;
       (if fx5 fx then CNull (D "cconvert") ;; CNull (D "cquantize") else CSkip) ;;
@@ -411,12 +417,15 @@ Definition prog_decode_yuv (fx : fixes) (merged : bool) : prog :=
          which no part of this function (re)defines: whatever an earlier header left there is validated (F13) *)
       (if fx13 fx then CSkip else CObs "dc_huff_tbl_ptrs" (EG (D "dc_huff_tbl_ptrs")) ;; CObs "ac_huff_tbl_ptrs" (EG (D "ac_huff_tbl_ptrs"))) ;;
       stage S_START ;;
+      (if fx13 fx then CNull (D "inputctl->dummy_start_input_pass") else CSkip) ;;
       CDeref (D "upsample") ;;
       CSetjmp 1 ;;
       CObs "bottomUp" (P "bottomUp") ;; CObs "subsamp" (P "subsamp") ;;
       CDeref (D "upsample") ;; (if merged then CSkip else CDeref (D "cconvert")) ;;
       CObs "pixels" (EA "img") ;;
-      abortc OD).
+      abortc OD) in
+  mkprog (p_body p) (p_handlers p)
+         ((if fx13 fx then CNull (D "inputctl->dummy_start_input_pass") else CSkip) ;; p_bailout p).
 
 (* --- tj3GetICCProfile / tj3TransformBufSize / parameter setters ----------------- *)
 Definition prog_get_icc : prog :=
